@@ -94,7 +94,7 @@ int main(int argc, char **argv) {
         plan.rule = "2 and 3 renders as coroutines under a controlled scheduler; every load/store of the code under test (clang trace-loads/"
                     "trace-stores) to memory that is not the coroutine's own stack or its own allocation is a scheduling point and is recorded; "
                     "ALL schedules with <=" + std::to_string(bound) + " preemptions (2 threads) / <=" + std::to_string(bound3) + " (3 threads) are "
-                    "executed for " + std::to_string(ncfg) + " (template, values) configurations (17 templates covering every tag kind incl. "
+                    "executed for " + std::to_string(ncfg) + " (template, values) configurations (18 templates covering every tag kind incl. "
                     "sort/group x same value / different values / a value whose loop sets are pointer-to-value members); after each: every output equals a fresh single render, the tag cache dump and "
                     "the values' Stringify are unchanged, stream prefixes intact, and no shared granule was written by one render and touched "
                     "by another (conflict-free => every interleaving is equivalent to the serial one)";
@@ -145,7 +145,7 @@ int main(int argc, char **argv) {
             };
             plan.stages.push_back(s2);
             plan.rule += " || sequential: every history of <=" + std::to_string(depth) + " steps over {render value 0..3 (3 = sets reached through pointer-to-value members) into a fresh or pre-filled "
-                         "stream through the cache, replace the cache by its copy, move the cache} for 17 templates: each render equals the fresh render; before them every value rendered into a stream already holding 0..72 units; each equals the fresh "
+                         "stream through the cache, replace the cache by its copy, move the cache} for 18 templates: each render equals the fresh render; before them every value rendered into a stream already holding 0..72 units; each equals the fresh "
                          "render, cache dump and values unchanged";
         }
         plan.assumptions = {"sequential consistency; allocator internals and libc are outside the monitor",
